@@ -4,10 +4,14 @@ import (
 	"encoding/binary"
 	"fmt"
 	"hash/crc32"
+	"io"
+	"log"
 	"net"
 	"runtime"
 	"sort"
 	"strings"
+	"sync"
+	"sync/atomic"
 	"testing"
 	"time"
 
@@ -726,6 +730,106 @@ func c13Nacks(r *rng, id string) {
 	emit("C13 nacks id=%s n=%d bad=%s", id, copies, bs)
 }
 
+// hoDel logs, in one sequence, the effects of what the packet handler takes off the handoff queues.
+type hoDel struct {
+	mu     sync.Mutex
+	log    []string
+	blk    chan struct{}
+	parked atomic.Bool
+}
+
+func (d *hoDel) NodeMeta(int) []byte { return nil }
+func (d *hoDel) NotifyMsg(b []byte) {
+	if len(b) == 1 && b[0] == 'P' {
+		d.parked.Store(true)
+		<-d.blk
+		return
+	}
+	d.mu.Lock()
+	if len(b) == 2 {
+		d.log = append(d.log, fmt.Sprintf("o%d", int(b[0])<<8|int(b[1])))
+	}
+	d.mu.Unlock()
+}
+func (d *hoDel) GetBroadcasts(int, int) [][]byte { return nil }
+func (d *hoDel) LocalState(bool) []byte          { return nil }
+func (d *hoDel) MergeRemoteState([]byte, bool)   {}
+func (d *hoDel) NotifyJoin(n *ml.Node) {
+	if strings.HasPrefix(n.Name, "h") {
+		d.mu.Lock()
+		d.log = append(d.log, "a"+n.Name[1:])
+		d.mu.Unlock()
+	}
+}
+func (d *hoDel) NotifyLeave(*ml.Node)  {}
+func (d *hoDel) NotifyUpdate(*ml.Node) {}
+
+// c13Handoff: messages pile up in the handoff queues while the handler is busy; once it runs, what takes
+// effect, and in which order, is compared with the queue model (bounded, newest first, alive gossip first,
+// a full queue drops, a message keeps its source).
+func c13Handoff(r *rng, id string) {
+	d := &hoDel{blk: make(chan struct{})}
+	depth := 2 + r.intn(5)
+	conf := ml.DefaultLANConfig()
+	conf.Name = "R"
+	conf.Transport = newNullTransport()
+	conf.AdvertiseAddr = "10.0.0.9"
+	conf.AdvertisePort = 7946
+	conf.BindPort = 7946
+	conf.ProbeInterval = time.Hour
+	conf.GossipInterval = 0
+	conf.PushPullInterval = 0
+	conf.HandoffQueueDepth = depth
+	conf.Delegate = d
+	conf.Events = d
+	conf.CIDRsAllowed, _ = ml.ParseCIDRs([]string{"10.0.0.0/8"})
+	conf.Logger = log.New(io.Discard, "", 0)
+	m, err := ml.Create(conf)
+	if err != nil {
+		return
+	}
+	ml.VerifIngestPacket(m, []byte{8, 'P'}, fromAddr, time.Now())
+	for i := 0; i < 2000 && !d.parked.Load(); i++ {
+		time.Sleep(time.Millisecond)
+	}
+	if !d.parked.Load() {
+		close(d.blk)
+		m.Shutdown()
+		return // the handler never got to the parking message (an overloaded machine): no verdict
+	}
+	outsider, _ := net.ResolveUDPAddr("udp", "192.168.0.9:7946")
+	vsn := []uint8{1, 5, 2, 0, 0, 0}
+	n := 4 + r.intn(16)
+	var msgs []string
+	for i := 1; i <= n; i++ {
+		if r.chance(1, 2) {
+			src, ok := net.Addr(fromAddr), 1
+			if r.chance(1, 4) {
+				src, ok = outsider, 0
+			}
+			ml.VerifIngestPacket(m, ml.VerifEncodeAlive(1, fmt.Sprintf("h%d", i), []byte{10, 2, 0, byte(i)}, 7946, nil, vsn), src, time.Now())
+			msgs = append(msgs, fmt.Sprintf("a:%d:%d", i, ok))
+		} else {
+			ml.VerifIngestPacket(m, []byte{8, byte(i >> 8), byte(i)}, fromAddr, time.Now())
+			msgs = append(msgs, fmt.Sprintf("o:%d:1", i))
+		}
+	}
+	queued := ml.VerifHandoffLen(m)
+	close(d.blk)
+	for i := 0; i < 4000 && ml.VerifHandoffLen(m) > 0; i++ {
+		time.Sleep(time.Millisecond)
+	}
+	time.Sleep(30 * time.Millisecond)
+	d.mu.Lock()
+	lg := strings.Join(d.log, ".")
+	d.mu.Unlock()
+	if lg == "" {
+		lg = "-"
+	}
+	emit("C13 handoff id=%s depth=%d queued=%d msgs=%s log=%s", id, depth, queued, strings.Join(msgs, ","), lg)
+	m.Shutdown()
+}
+
 func TestC13(t *testing.T) {
 	n := envInt("VERIF_N", 1500)
 	if thorough() {
@@ -738,4 +842,5 @@ func TestC13(t *testing.T) {
 	forCases(1+n/500, 135, "f", func(i int, r *rng, id string) { c13Fields(r, id) })
 	forCases(2+n/300, 136, "t", func(i int, r *rng, id string) { c13Stall(r, id) })
 	forCases(3, 137, "k", func(i int, r *rng, id string) { c13Nacks(r, id) })
+	forCases(20+n/100, 138, "h", func(i int, r *rng, id string) { c13Handoff(r, id) })
 }
